@@ -90,7 +90,8 @@ def h05a(c, L=2, vwap="exclude", concrete_sizes=None):
         c.ob("remaining>=0", sim.size_remaining >= 0)
         tot = cm.total([f[2] for f in frags])
         # (with the concrete sizes of H05c the harness's own float sum carries noise: 0.01 + 3.0 + 0.01 = 3.0199999999999996)
-        c.ob("size_matched=sum(fragments)", c.close(sim.size_matched, tot, 1e-9))
+        exact = hasattr(tot, "n") or hasattr(sim.size_matched, "n")  # symbolic values are exact decimals
+        c.ob("size_matched=sum(fragments)", (sim.size_matched == tot) if exact else abs(sim.size_matched - tot) <= 1e-9)
         c.ob("matched<=size", sim.size_matched <= size)
         for i, (pt, p, s) in enumerate(frags):
             c.ob("fragment%d.size>0" % i, s > 0)
